@@ -160,6 +160,20 @@ func (w *c20World) apply(r *Rec, op string) string {
 		if err := w.app.BankKeeper.MintCoins(w.ctx, "aggregate", c); err != nil {
 			return "err"
 		}
+		if acc := w.app.AccountKeeper.GetAccount(w.ctx, w.pool); acc != nil {
+			if _, isModule := acc.(authtypes.ModuleAccountI); !isModule {
+				// a plain account sits at the pool address (op poolacct): fund it the way a user transfer would, the
+				// module-to-module helper of the HARNESS would refuse to treat it as a module account
+				if err := w.app.BankKeeper.SendCoins(w.ctx, authtypes.NewModuleAddress("aggregate"), w.pool, c); err != nil {
+					return "err"
+				}
+				if f[0] == "fundraw" {
+					w.app.AccountKeeper.RemoveAccount(w.ctx, acc)
+					r.Count("fund.no-account")
+				}
+				return "ok"
+			}
+		}
 		if err := w.app.BankKeeper.SendCoinsFromModuleToModule(w.ctx, "aggregate", rvestingtypes.ModuleName, c); err != nil {
 			return "err"
 		}
@@ -171,6 +185,15 @@ func (w *c20World) apply(r *Rec, op string) string {
 			}
 			r.Count("fund.no-account")
 		}
+		return "ok"
+	case "poolacct":
+		// a PLAIN (non-module) account object at the pool address: what `add-genesis-account <pool address>` or a fee grant
+		// to the pool address leaves behind. Balances are untouched; the schedule must not care (it derives the address only).
+		if acc := w.app.AccountKeeper.GetAccount(w.ctx, w.pool); acc != nil {
+			w.app.AccountKeeper.RemoveAccount(w.ctx, acc)
+		}
+		w.app.AccountKeeper.SetAccount(w.ctx, w.app.AccountKeeper.NewAccountWithAddress(w.ctx, w.pool))
+		r.Count("pool.plain-account")
 		return "ok"
 	case "sendenabled":
 		// x/bank send restrictions (user MsgSend / MsgMultiSend): a bank parameter, no business of the module-to-module
@@ -465,8 +488,14 @@ func c20GenHistory(r *Rec) []string {
 					h = append(h, "enable 0")
 				case y < 5:
 					h = append(h, "enable 1")
-				case y < 6:
+				case y < 5:
 					h = append(h, "restart")
+				case y < 6:
+					if r.Rng.Intn(2) == 0 {
+						h = append(h, "poolacct")
+					} else {
+						h = append(h, "restart")
+					}
 				case y < 7:
 					d := denoms[r.Rng.Intn(4)]
 					if r.Rng.Intn(5) == 0 {
